@@ -167,6 +167,16 @@ def run_compose(ctx, desc):
             ugo = rnd.random() < 0.5
             dl = rnd.choice([None, None, ["en"], ["fr", "en"]])
             check_compose(ctx, s, det, langs, ugo, dl)
+            if t == 0 and len(langs) > 1:
+                # the same selection under the other ordering rule, and back: the order a selection is tried in
+                # must depend on use_given_order of *this* call only
+                check_compose(ctx, s, det, langs, not ugo, dl)
+                check_compose(ctx, s, det, langs, ugo, dl)
+    if desc["i"] == 0:
+        for langs in (["fr", "en"], ["de", "en"], ["es", "en", "fr"], ["ja", "en"], ["ru", "fr", "en"]):
+            for s in ("02/03/2015", "12 2015", "1.2.2003"):
+                for ugo in (False, True, False, True):
+                    check_compose(ctx, s, None, langs, ugo, None)
     ctx.sample({"strings": [r[0] for r in rows[:4]]})
 
 
